@@ -104,6 +104,8 @@ var decisionTargets = []decisionTarget{
 	{"kdcForward", "cmd/rdpgw/kdcproxy/proxy.go", "KerberosProxy", "forward"},
 	{"rdpUnmarshal", "cmd/rdpgw/rdp/koanf/parsers/rdp/rdp.go", "RDP", "Unmarshal"},
 	{"rdpMarshal", "cmd/rdpgw/rdp/koanf/parsers/rdp/rdp.go", "RDP", "Marshal"},
+	{"main", "cmd/rdpgw/main.go", "", "main"},
+	{"configLoad", "cmd/rdpgw/config/configuration.go", "", "Load"},
 }
 
 func writeDecisions() string {
